@@ -45,14 +45,14 @@ var sessionTexts = map[string]string{
 type sessionStep struct {
 	Op      string `json:"op"`
 	Preload bool   `json:"preload"`
-	Disk    string `json:"disk"`
+	Doc     string `json:"doc"`
 	Text    string `json:"text"`
 	Full    bool   `json:"full"`
 }
 
 type sessionHist struct {
-	Disk  string        `json:"disk"`
-	Steps []sessionStep `json:"steps"`
+	Disk  map[string]string `json:"disk"` // document -> text on disk at start ("none": no file)
+	Steps []sessionStep     `json:"steps"`
 }
 
 func position(doc string, off int) lsp.Position {
@@ -119,23 +119,32 @@ func replaySession(h sessionHist, dir string) (sig, what string, at int) {
 		vhlib.Fatal("%v", err)
 	}
 	defer os.RemoveAll(dir)
-	file := filepath.Join(dir, "hello.templ")
-	if h.Disk != "none" {
-		if err := os.WriteFile(file, []byte(sessionTexts[h.Disk]), 0o644); err != nil {
-			vhlib.Fatal("%v", err)
+	uri := map[string]lsp.DocumentURI{}
+	for d, t := range h.Disk {
+		file := filepath.Join(dir, d+".templ")
+		uri[d] = lsp.DocumentURI("file://" + file)
+		if t != "none" {
+			if err := os.WriteFile(file, []byte(sessionTexts[t]), 0o644); err != nil {
+				vhlib.Fatal("%v", err)
+			}
 		}
 	}
-	uri := lsp.DocumentURI("file://" + file)
 	ctx := lsp.WithClient(context.Background(), stubClient{})
 	var srv *proxy.Server
-	editor := ""
-	version := int32(0)
-	copyOf := func() (string, bool) {
-		d, ok := srv.TemplSource.Get(string(uri))
-		if !ok {
-			return "", false
+	editor := map[string]string{} // open documents
+	version := map[string]int32{}
+	// every open document's copy equals the editor's text
+	compare := func(op string) (string, string) {
+		for d, want := range editor {
+			doc, ok := srv.TemplSource.Get(string(uri[d]))
+			if !ok {
+				return "Session.ServerTracksEditor." + op, "the server holds no copy of the open document " + d
+			}
+			if got := doc.String(); got != want {
+				return "Session.ServerTracksEditor." + op, fmt.Sprintf("document %s: server copy %q, editor %q", d, clip(got), clip(want))
+			}
 		}
-		return d.String(), true
+		return "", ""
 	}
 	for i, s := range h.Steps {
 		switch s.Op {
@@ -149,41 +158,37 @@ func replaySession(h sessionHist, dir string) (sig, what string, at int) {
 			}
 			continue
 		case "open":
-			editor = sessionTexts[s.Text]
-			version = 1
-			if err := srv.DidOpen(ctx, &lsp.DidOpenTextDocumentParams{TextDocument: lsp.TextDocumentItem{URI: uri, LanguageID: "templ", Version: version, Text: editor}}); err != nil {
+			editor[s.Doc] = sessionTexts[s.Text]
+			version[s.Doc] = 1
+			if err := srv.DidOpen(ctx, &lsp.DidOpenTextDocumentParams{TextDocument: lsp.TextDocumentItem{URI: uri[s.Doc], LanguageID: "templ", Version: 1, Text: editor[s.Doc]}}); err != nil {
 				return "Session.Open", "DidOpen failed: " + err.Error(), i
 			}
 		case "change":
 			next := sessionTexts[s.Text]
 			ev := lsp.TextDocumentContentChangeEvent{Text: next}
 			if !s.Full {
-				r, text := incremental(editor, next)
+				r, text := incremental(editor[s.Doc], next)
 				ev = lsp.TextDocumentContentChangeEvent{Range: &r, Text: text}
 			}
-			editor = next
-			version++
+			editor[s.Doc] = next
+			version[s.Doc]++
 			params := &lsp.DidChangeTextDocumentParams{ContentChanges: []lsp.TextDocumentContentChangeEvent{ev}}
-			params.TextDocument.URI = uri
-			params.TextDocument.Version = version
+			params.TextDocument.URI = uri[s.Doc]
+			params.TextDocument.Version = version[s.Doc]
 			if err := srv.DidChange(ctx, params); err != nil {
 				return "Session.Change", "DidChange failed: " + err.Error(), i
 			}
 		case "close":
-			if err := srv.DidClose(ctx, &lsp.DidCloseTextDocumentParams{TextDocument: lsp.TextDocumentIdentifier{URI: uri}}); err != nil {
+			delete(editor, s.Doc)
+			if err := srv.DidClose(ctx, &lsp.DidCloseTextDocumentParams{TextDocument: lsp.TextDocumentIdentifier{URI: uri[s.Doc]}}); err != nil {
 				return "Session.Close", "DidClose failed: " + err.Error(), i
 			}
-			if got, ok := copyOf(); ok {
-				return "Session.NoCopyWhenClosed", fmt.Sprintf("the server still holds a copy after close: %q", got), i
+			if doc, ok := srv.TemplSource.Get(string(uri[s.Doc])); ok {
+				return "Session.NoCopyWhenClosed", fmt.Sprintf("the server still holds a copy of %s after close: %q", s.Doc, clip(doc.String())), i
 			}
-			continue
 		}
-		got, ok := copyOf()
-		if !ok {
-			return "Session.ServerTracksEditor." + s.Op, "the server holds no copy of the open document", i
-		}
-		if got != editor {
-			return "Session.ServerTracksEditor." + s.Op, fmt.Sprintf("server copy %q, editor %q", clip(got), clip(editor)), i
+		if sig, what := compare(s.Op); sig != "" {
+			return sig, what, i
 		}
 	}
 	return "", "", 0
